@@ -203,16 +203,17 @@ Fixpoint removeTextAll_blocks (s : string) (l : list (block tag)) : list (block 
   end.
 Definition set_blocks_text (bs' : list (block tag)) (t : tag) : tag :=
   let 'Tag h _ := t in Tag (set_h h (sc h) (concat_s (texts_of bs')) (children h)) bs'.
+Definition removeText_here (s : string) (t : tag) : tag := set_blocks_text (fst (removeText_blocks s (bs_ t))) t.
+Definition removeTextAll_here (s : string) (t : tag) : tag := set_blocks_text (fst (removeTextAll_blocks s (bs_ t))) t.
 Definition removeText (w : world) (t : nat) (s : string) : world * ret :=
   match wfind t w with
-  | Some (Tag h bs) => let '(bs', o) := removeText_blocks s bs in
-                       (wupdate t (set_blocks_text bs') w, match o with Some b => RStr b | None => RNone end)
+  | Some (Tag h bs) => (wupdate t (removeText_here s) w,
+                        match snd (removeText_blocks s bs) with Some b => RStr b | None => RNone end)
   | None => (w, ROutOfDomain)
   end.
 Definition removeTextAll (w : world) (t : nat) (s : string) : world * ret :=
   match wfind t w with
-  | Some (Tag h bs) => let '(bs', o) := removeTextAll_blocks s bs in
-                       (wupdate t (set_blocks_text bs') w, RList (map hex o))
+  | Some (Tag h bs) => (wupdate t (removeTextAll_here s) w, RList (map hex (snd (removeTextAll_blocks s bs))))
   | None => (w, ROutOfDomain)
   end.
 Definition removeBlock (w : world) (t : nat) (b : blk) : world * ret :=
@@ -304,3 +305,23 @@ Definition mk_world (parser_owned : bool) (ts : list dtoken) (spares : list (str
   let docroot := match r with Some t => [t] | None => [] end in
   docroot ++ snd (fold_left (fun acc ns => (S (fst acc), snd acc ++ [new_tag (fst acc) (fst ns) Attr.st0 (snd ns || is_void (fst ns)) None None]))
                             spares (n, [])).
+
+(* ---------- boolean checkers (used for non-vacuity examples and checked on every correspondence case) ---------- *)
+Definition opt_nat_eqb (a b : option nat) : bool :=
+  match a, b with Some x, Some y => Nat.eqb x y | None, None => true | _, _ => false end.
+Fixpoint list_nat_eqb (a b : list nat) : bool :=
+  match a, b with [], [] => true | x :: a', y :: b' => Nat.eqb x y && list_nat_eqb a' b' | _, _ => false end.
+Fixpoint wfb (p o : option nat) (t : tag) {struct t} : bool :=
+  match t with Tag h bs =>
+    opt_nat_eqb (parent h) p && opt_nat_eqb (owner h) o
+    && list_nat_eqb (children h) (map tuid (tags_of bs))
+    && String.eqb (text h) (concat_s (texts_of bs))
+    && (negb (sc h) || (match children h with [] => true | _ => false end && String.eqb (text h) ""))
+    && (fix go (l : list (block tag)) : bool :=
+          match l with [] => true | BTag c :: r => wfb (Some (uid h)) o c && go r | _ :: r => go r end) bs
+  end.
+Definition wfwb (w : world) : bool :=
+  match w with [] => true | r :: d => wfb None (owner (hd_ r)) r && forallb (wfb None None) d end.
+Fixpoint nodup_natb (l : list nat) : bool :=
+  match l with [] => true | x :: r => negb (existsb (Nat.eqb x) r) && nodup_natb r end.
+Definition world_uids (w : world) : list nat := flat_map uids_of w.
